@@ -17,6 +17,8 @@ func c20(r *Report) propMeta {
 	rp := sb + "removePending"
 	r.ArgHas("remove-each-signal", rp, "Map.LoadAndDelete", 0, 1, "field:SignalPrice.SignalID", "param:toSubmitPrices|param:signalPrices|param:prices")
 	r.Callers("callers", rp, []string{sp}, []string{sp})
+	// ... and only for submissions that reach submitPrice at all: the submitter loop hands every queued submission over
+	r.ReceiveAlwaysHandled("every-queued-submission-is-submitted", sb+"Start", []string{"field:Submitter.submitSignalPriceCh"}, "Submitter.submitPrice")
 	// the deferred release only runs if submitPrice returns: its waits must be bounded
 	r.NoTimerInLoop("timeouts-not-rearmed-per-iteration", []string{"grogu/submitter.", "grogu/signaller.", "grogu/querier."}, 20)
 
